@@ -333,10 +333,80 @@ func last(m []int) int {
 	return m[len(m)-1]
 }
 
+
+// ---- element types with identity: pointers. Two elements are the same only if == says so.
+
+type PtrCase struct {
+	Linked bool `json:"linked"`
+	N      int  `json:"n"`
+	Deqs   int  `json:"deqs"`
+}
+
+func runPtr(w *core.Worker, c PtrCase) {
+	nm := "queue"
+	if c.Linked {
+		nm = "lqueue"
+	}
+	mkv := func(i int) *int { v := i % 2; return &v }
+	held := []*int{}
+	never := mkv(0)
+	p := core.Catch(func() {
+		var enq func(*int)
+		var deq func() *int
+		var search func(*int) bool
+		var size func() int
+		if c.Linked {
+			first := mkv(0)
+			q := queue.NewLinked(first)
+			held = append(held, first)
+			enq, deq, search, size = q.Enqueue, q.Dequeue, q.Search, q.Size
+		} else {
+			q := queue.New[*int]()
+			enq, search, size = q.Enqueue, q.Search, q.Size
+			deq = func() *int { v, _ := q.Dequeue(); return v }
+		}
+		for i := 0; i < c.N; i++ {
+			v := mkv(i)
+			enq(v)
+			held = append(held, v)
+		}
+		var gone []*int
+		for k := 0; k < c.Deqs && len(held) > 0; k++ {
+			if got := deq(); got != held[0] {
+				w.Violation(nm+".deq-order", fmt.Sprintf("pointer elements: Dequeue returned %p, the front was %p", got, held[0]))
+				return
+			}
+			gone = append(gone, held[0])
+			held = held[1:]
+		}
+		if size() != len(held) {
+			w.Violation(nm+".size", fmt.Sprintf("pointer elements: Size()=%d, %d held", size(), len(held)))
+			return
+		}
+		for _, h := range held {
+			if !search(h) {
+				w.Violation(nm+".search", fmt.Sprintf("pointer elements: Search(%p) is false for a held element", h))
+				return
+			}
+		}
+		for _, g := range append(gone, never) {
+			if search(g) {
+				w.Violation(nm+".search", fmt.Sprintf("pointer elements: Search(%p -> %d) is true although that pointer is not held (%d held elements with equal pointees exist)", g, *g, len(held)))
+				return
+			}
+		}
+	})
+	if p != nil {
+		w.Violation(nm+".panic:pointer-elements", fmt.Sprintf("pointer elements panicked: %v", p))
+		return
+	}
+	w.NonTrivial(core.HashString(core.JSON(c)))
+}
+
 func TestProp(t *testing.T) {
 	r := core.Start(t, "C05")
 	defer r.Finish()
-	r.Rule("cases = operation sequences on queue.Queue[int] and queue.LQueue[int] (the linked one starting from its mandatory element) checked against a slice model: every Dequeue value and emptiness report, and Size/Peek/Search of every probe value after the last step (sweep) or every step (random), then a full drain plus one Dequeue on the empty queue; non-trivial = at least 2 operations; queue-bulk: phases of hundreds to thousands of enqueues of unique values and dequeues (to empty, beyond, almost, partly; occasional Clear) with Size/Peek after every operation, every Dequeue value, membership probes after every phase; non-trivial = at least 300 elements were held at once; distinct by hash of the case")
+	r.Rule("cases = operation sequences on queue.Queue[int] and queue.LQueue[int] (the linked one starting from its mandatory element) checked against a slice model: every Dequeue value and emptiness report, and Size/Peek/Search of every probe value after the last step (sweep) or every step (random), then a full drain plus one Dequeue on the empty queue; non-trivial = at least 2 operations; queue-bulk: phases of hundreds to thousands of enqueues of unique values and dequeues (to empty, beyond, almost, partly; occasional Clear) with Size/Peek after every operation, every Dequeue value, membership probes after every phase; non-trivial = at least 300 elements were held at once; pointer-elements: the same containers over *int (all pointers distinct, pointees equal) and structs with a pointer field: identity of what is returned, Search true exactly for the held pointers; distinct by hash of the case")
 
 	alpha := []Op{{"enq", 1}, {"enq", 2}, {"enq", 3}, {K: "deq"}, {K: "clear"}, {K: "peek"}}
 	L := r.Pick(7, 9)
@@ -420,4 +490,14 @@ func TestProp(t *testing.T) {
 			emit(c)
 		}
 	}, runBulk)
+
+	core.Monitor(r, "queue-pointer-elements", 0, func(emit func(PtrCase)) {
+		for _, l := range []bool{false, true} {
+			for n := 0; n <= 9; n++ {
+				for d := 0; d <= n+1; d++ {
+					emit(PtrCase{Linked: l, N: n, Deqs: d})
+				}
+			}
+		}
+	}, runPtr)
 }
